@@ -133,7 +133,7 @@ Section Relabel.
   Proof.
     intros [[s t] v] Hs Ht. cbn [e_src e_dst fst snd] in Hs, Ht.
     unfold relabel1, scale_src, scale_dst, same_pair. cbn [e_src e_dst e_w fst snd].
-    split_eqb; try (exfalso; lia); ring.
+    split_eqb; try congruence; try (exfalso; lia); ring.
   Qed.
 
   Lemma relabel1_right : forall e, e_src e <> k -> e_dst e <> k ->
@@ -142,7 +142,7 @@ Section Relabel.
   Proof.
     intros [[s t] v] Hs Ht. cbn [e_src e_dst fst snd] in Hs, Ht.
     unfold relabel1, scale_src, scale_dst, same_pair. cbn [e_src e_dst e_w fst snd].
-    split_eqb; try (exfalso; lia); ring.
+    split_eqb; try congruence; try (exfalso; lia); ring.
   Qed.
 
   Lemma relabel_wsum_left : forall es, (forall e, In e es -> e_src e <> k /\ e_dst e <> k) ->
@@ -171,7 +171,7 @@ Section Relabel.
   Proof.
     intros [[s t] v] Hs Ht. cbn [e_src e_dst fst snd] in Hs, Ht.
     unfold relabel1, scale_src, scale_dst, same_pair. cbn [e_src e_dst e_w fst snd].
-    split_eqb; try (exfalso; lia); reflexivity.
+    split_eqb; try congruence; try (exfalso; lia); reflexivity.
   Qed.
 
   Lemma relabel_npair_left : forall es, (forall e, In e es -> e_src e <> k /\ e_dst e <> k) ->
@@ -237,11 +237,13 @@ Lemma average_link_lance_williams : forall A (sim : A -> A -> Q) (I J C : list A
 Proof.
   intros A sim I J C HI HJ HC. unfold fus_fj, fus_fi, mean_sim.
   rewrite total_sim_app, Qlen_app.
-  rewrite Nat2Z.inj_add, inject_Z_plus. fold (Qlen I) (Qlen J).
+  rewrite Nat2Z.inj_add.
+  assert (E0 : inject_Z (Z.of_nat (length I) + Z.of_nat (length J)) == Qlen I + Qlen J) by (unfold Qlen; rewrite inject_Z_plus; reflexivity).
+  rewrite E0. clear E0. fold (Qlen I).
   pose proof (Qlen_pos _ I HI) as PI. pose proof (Qlen_pos _ J HJ) as PJ. pose proof (Qlen_pos _ C HC) as PC.
   set (x := Qlen I) in *. set (y := Qlen J) in *. set (z := Qlen C) in *.
   set (a := total_sim sim I C). set (b := total_sim sim J C).
-  field. repeat split; intro E; rewrite E in *; lra.
+  field. repeat split; intro E; lra.
 Qed.
 
 (* the weight between two distinct values lies between them when both populations are positive *)
@@ -262,4 +264,18 @@ Proof.
     - apply Qle_shift_div_l; assumption.
     - apply Qle_shift_div_r; assumption. }
   split; apply D; nra.
+Qed.
+
+(* one step of the average-link invariant: if the rows (i,c), (j,c) carry the mean similarities of the
+   clusters I, J to C (a missing row counts 0), the row (k,c) after fusion carries that of I ++ J *)
+Lemma fusion_keeps_mean_similarity : forall A (sim : A -> A -> Q) (I J C : list A) i j k c es,
+  I <> [] -> J <> [] -> C <> [] ->
+  fresh k es -> i <> j -> i <> k -> j <> k -> c <> i -> c <> j -> c <> k ->
+  wsum es i c == mean_sim sim I C -> wsum es j c == mean_sim sim J C ->
+  wsum (fusion (Z.of_nat (length I)) (Z.of_nat (length I + length J)) i j k es) k c == mean_sim sim (I ++ J) C.
+Proof.
+  intros A sim I J C i j k c es HI HJ HC Hf Hij Hik Hjk Hci Hcj Hck Ei Ej.
+  destruct (fusion_weight_spec (Z.of_nat (length I)) (Z.of_nat (length I + length J)) i j k c es Hf Hij Hik Hjk Hci Hcj Hck)
+    as [E _].
+  rewrite E, Ei, Ej. now apply average_link_lance_williams.
 Qed.
